@@ -255,7 +255,7 @@ func gen(seed uint64, tier string) Scenario {
 	// holds between any two statements of pkg/conn's read / write functions (no lock is held there):
 	// a response and a frame written by two goroutines must each reach the connection in one piece
 	// (hash-derived so that no other choice moves)
-	if core.HS(seed, "c01.autoconn", "", 0)%100 < 25 {
+	if core.HS(seed, "c01.autoconn", "", 0)%100 < 12 {
 		if sc.Yields == nil {
 			sc.Yields = map[string]core.YieldSpec{}
 		}
@@ -1277,7 +1277,7 @@ func init() {
 	f.Real = []string{"gortsplib.Server, ServerStream, ServerSession, ServerConn, Client (root package, all pkg/* and internal/* it uses)", "pion rtp/rtcp/srtp/sdp", "gorilla/websocket", "crypto/tls", "net/http request/response parsing", "bufio"}
 	f.Simulated = []string{"TCP and UDP sockets, listeners, port allocation (simnet through Server.Listen/ListenPacket/TLSListen and Client.DialContext/DialTLSContext/ListenPacket)", "clock, timers, deadlines (testing/synctest fake clock)", "entropy (crypto/rand.Reader, uuid)", "goroutine interleaving at the enabled yield sites"}
 	f.Excluded = []string{"pkg/multicast's raw-socket platform files (replaced in the scratch copy by a stand-in that binds the group address through the ListenPacket seam; everything above it - multicast writers, listeners, SETUP negotiation - is the real code; at most one multicast reader per run)", "back-pressure under TLS / WebSocket (window unbounded there, DESIGN 2.3)"}
-	f.Rule = "scenario = stream description (1..3 medias x 1..3 formats; payload types unique across the medias, or - a fifth of the runs - numbered from 96 in every media) x source (server-side writer | recording client over udp/tcp/http/ws) x 1..4 readers (udp/tcp/http/ws, plain or TLS+SRTP) with seeded join / pause / resume / leave scripts x (a quarter of the runs: simulation-aware locks, a yield point before every statement of pkg/conn and internal/bytecounter, IdleTimeout 6 s so that readers send keep-alives every second while media flows, streams of 3 s) x packet sequence (sizes 10..max, seeded timestamps/markers, consecutive sequence numbers from a seeded start incl. wrap, arbitrary on reliable carriers) x fault mix (latency, chunking incl. 1-byte, UDP drop/dup/reorder/burst, bounded window + receiver stalls) x enabled yield sites; non-trivial = at least one packet delivered to a reader and (>= 1 fault kind other than plain delay fired or >= 1 yield site hit); distinct = distinct hash of the canonical event log"
+	f.Rule = "scenario = stream description (1..3 medias x 1..3 formats; payload types unique across the medias, or - a fifth of the runs - numbered from 96 in every media) x source (server-side writer | recording client over udp/tcp/http/ws) x 1..4 readers (udp/tcp/http/ws, plain or TLS+SRTP) with seeded join / pause / resume / leave scripts x (an eighth of the runs: simulation-aware locks, a yield point before every statement of pkg/conn and internal/bytecounter, IdleTimeout 6 s so that readers send keep-alives every second while media flows, streams of 3 s) x packet sequence (sizes 10..max, seeded timestamps/markers, consecutive sequence numbers from a seeded start incl. wrap, arbitrary on reliable carriers) x fault mix (latency, chunking incl. 1-byte, UDP drop/dup/reorder/burst, bounded window + receiver stalls) x enabled yield sites; non-trivial = at least one packet delivered to a reader and (>= 1 fault kind other than plain delay fired or >= 1 yield site hit); distinct = distinct hash of the canonical event log"
 	f.Assumptions = []string{
 		"packets still queued when the reader itself sends PAUSE/TEARDOWN are not 'missing' (the reader has left)",
 		"completeness is waived for a run in which a write-queue-full error was reported to the writer or to OnStreamWriteError",
